@@ -73,16 +73,39 @@ def prepare(ctx):
             "regl": regl, "nscanned": nscanned, "names": {s["tid"]: s["name"] for s in structs}}
 
 
-def run_model(ctx, prep):
+def schema_paths():
+    return [C.REPO + "/schemes/api_latest.tl", C.REPO + "/schemes/mtproto.tl"]
+
+
+def run_model(ctx, prep, with_spec=False):
+    """model results per case id; with_spec: E-cases get (enc result, spec(abs v) result)"""
     C.build_model("TL")
     mout = ctx.work + "/model.txt"
-    C.run_model("TL", prep["cases"], mout, args=[prep["reg"]], timeout=3000)
+    args = [prep["reg"]] + (schema_paths() if with_spec else [])
+    C.run_model("TL", prep["cases"], mout, args=args, timeout=3000)
     model = {}
     with open(mout) as f:
         for line in f:
-            i, r = line.rstrip("\n").split("\t", 1)
-            model[i] = r
+            fs = line.rstrip("\n").split("\t")
+            if with_spec and len(fs) == 3:
+                model[fs[0]] = (fs[1], fs[2])
+            elif len(fs) == 3:
+                model[fs[0]] = fs[1]
+            else:
+                model[fs[0]] = fs[1]
     return model
+
+
+def schema_ids():
+    """constructor ids written in the schema files (only used to select which cases C02/C13 compare)"""
+    import re
+    ids = {}
+    for p in schema_paths():
+        for line in open(p, encoding="latin-1"):
+            m = re.match(r"^([A-Za-z0-9_.]+)#([0-9a-fA-F]+)\s", line)
+            if m:
+                ids[int(m.group(2), 16)] = (m.group(1), line.strip())
+    return ids
 
 
 def iter_cases(path):
